@@ -18,6 +18,12 @@ from vf.pyvc.program import Program
 PYVC_RLIMIT = 12000000
 
 
+class OpaqueSeq:
+    """elements of an iterable the model does not look into"""
+    elem = "opaque"
+    def __init__(self, name): self.name = name
+
+
 class Verifier(Executor):
 
     def __init__(self, program: Program, spec: SpecEnv):
@@ -40,6 +46,7 @@ class Verifier(Executor):
         c = self.spec.contracts.get(qual) if qual else None
         inv = c.loops.get(k) if c else None
         short = qual.split("fggs.", 1)[-1] if qual else fn.name
+        self._last_loop_k = k
         if short != self.top_name:
             return inv, f"{self.top_name}.inlined[{short}].loop{k}"
         return inv, f"{short}.loop{k}"
@@ -51,6 +58,9 @@ class Verifier(Executor):
 
     def targets_for(self, s, it, st):
         """Resolve the iterable into (St, list of (target, SSeq), n)."""
+        if isinstance(it, SOpaqueObj):
+            n = S.fresh("n.opaque", z3.IntSort())
+            return st.fact(n >= 0), [(s.target, OpaqueSeq(it.name))], n
         if isinstance(it, SIter):
             if it.kind == "zip":
                 seqs = []
@@ -114,6 +124,8 @@ class Verifier(Executor):
                 nv = S.fresh("cnt", z3.IntSort())
                 st = st.fact(nv >= g.get(gk, z3.IntVal(0)))
                 g[gk] = nv
+            elif gk.startswith("passed:"):
+                g[gk] = z3.And(g.get(gk, z3.BoolVal(True)), S.fresh("passed", z3.BoolSort()))
             else:
                 g[gk] = S.fresh("last", z3.BoolSort())
         return st.but(ghost=g)
@@ -136,6 +148,7 @@ class Verifier(Executor):
                     else:
                         refs.add(r)
             for n, v in st2.env.items():
+                if n.startswith(("_i", "_n", "_it")) and n[-1].isdigit(): continue      # ghost loop variables
                 if n not in st_h.env or st_h.env[n] is not v:
                     names.add(n)
             if st2.alive is not st_h.alive: names.add("alive")
@@ -144,6 +157,7 @@ class Verifier(Executor):
                 if st_h.ghost.get(gk) is not gv: names.add("ghost:" + gk)
         dummy = Frame(lambda v, s: end(s), lambda e, s: end(s), None, "dry")
         dummy.fn, dummy.qual = getattr(st.fr, "fn", None), getattr(st.fr, "qual", None)
+        dummy.entry_st = getattr(st.fr, "entry_st", None)
         dummy.loops = [(end, end)]
         body_runner(st_h.but(fr=dummy), end)
         del self.vcs[saved_vcs:]
@@ -163,29 +177,37 @@ class Verifier(Executor):
             def go(ts, st3, kk):
                 if not ts: return kk(st3)
                 t, sq = ts[0]
-                return self.assign(t, S.wrap(sq.elem, sq.arr[i]), st3, lambda st4: go(ts[1:], st4, kk))
+                v = SOpaqueObj(sq.name + "[]") if isinstance(sq, OpaqueSeq) else S.wrap(sq.elem, sq.arr[i])
+                return self.assign(t, v, st3, lambda st4: go(ts[1:], st4, kk))
             return go
-        ghost = lambda st2, i: dict(st2.env, _i=I(i), _n=I(n), _it=tsq[-1][1], __entry__=Entry(self.entry_env))
+        lk = self._last_loop_k
+        ghost = lambda st2, i: dict(st2.env, **{"_i": I(i), "_n": I(n), "_it": tsq[-1][1],
+                                                f"_i{lk}": I(i), f"_n{lk}": I(n), f"_it{lk}": tsq[-1][1],
+                                                "__entry__": Entry(self.entry_env)})
+        old_for_inv = getattr(fr, "entry_st", None) or self.entry_st
         def inv_at(st2, i):
-            return PureEval(self, st2, ghost(st2, i), old_st=self.entry_st).truth(inv)
+            return PureEval(self, st2, ghost(st2, i), old_st=old_for_inv).truth(inv)
         # (1) invariant holds on entry
         self.vc(f"{label}.invariant_on_entry", st, inv_at(st, z3.IntVal(0)))
         # (2) write set by dry run
         i = S.fresh("_i", z3.IntSort())
         def body_runner(st_b, end):
             st_b = st_b.assume(z3.And(i >= 0, i < n))
+            st_b = st_b.bind(f"_i{lk}", I(i)).bind(f"_n{lk}", I(n)).bind(f"_it{lk}", tsq[-1][1])
             bind_targets(st_b, i)(tsq, st_b, lambda st_c: self.ex(s.body, st_c, end))
         refs, names = self.write_set(body_runner, st)
         names -= {t.id for t, _ in tsq if isinstance(t, ast.Name)}
         # (3) an arbitrary iteration preserves the invariant
         st_h = self.havoc_all(st, only_refs=refs, only_names=names)
         st_i = st_h.assume(z3.And(i >= 0, i < n)).assume(inv_at(st_h, i))
+        st_i = st_i.bind(f"_i{lk}", I(i)).bind(f"_n{lk}", I(n)).bind(f"_it{lk}", tsq[-1][1])
         after: List[St] = []
         def body_end(st2):
             self.vc(f"{label}.invariant_preserved", st2, inv_at(st2, i + 1))
             self.check_iterated_unchanged(s, it, st_i, st2, label)
         loop_fr = Frame(fr.on_return, fr.on_raise, fr.parent, fr.name)
         loop_fr.fn, loop_fr.qual = getattr(fr, "fn", None), getattr(fr, "qual", None)
+        loop_fr.entry_st = getattr(fr, "entry_st", None)
         loop_fr.loops = fr.loops + [(lambda st2: after.append(st2), body_end)]
         st_i = st_i.but(fr=loop_fr)
         bind_targets(st_i, i)(tsq, st_i, lambda st_c: self.ex(s.body, st_c, body_end))
@@ -198,6 +220,11 @@ class Verifier(Executor):
 
     def check_iterated_unchanged(self, s, it, st_before, st_after, label):
         """`RuntimeError: dictionary changed size during iteration` must be impossible."""
+        if isinstance(it, SSubSet):
+            a, b = st_before.cell(it.ref), st_after.cell(it.ref)
+            if a is not b:
+                self.vc(f"{label}.iterated_set_not_resized", st_after, a.val[it.key] == b.val[it.key])
+            return
         ref = it.ref if isinstance(it, (SRef, SDictView)) else None
         if ref is None: return
         a, b = st_before.cell(ref), st_after.cell(ref)
@@ -219,6 +246,7 @@ class Verifier(Executor):
                 return self.assign(t, S.wrap(sq.elem, sq.arr[j]), st3, lambda st4: go(ts[1:], st4, kk))
             lf = Frame(fr.on_return, fr.on_raise, fr.parent, fr.name)
             lf.fn, lf.qual = getattr(fr, "fn", None), getattr(fr, "qual", None)
+            lf.entry_st = getattr(fr, "entry_st", None)
             lf.loops = fr.loops + [(lambda st3: k(st3.but(fr=fr)), lambda st3: it(j + 1, st3))]
             return go(tsq, st2.but(fr=lf), lambda st3: self.ex(s.body, st3, lambda st4: it(j + 1, st4)))
         return it(0, st)
@@ -229,7 +257,8 @@ class Verifier(Executor):
         if inv is None: raise Unsupported(f"{label}: loop without an invariant")
         fr = st.fr
         ghost = lambda st2: dict(st2.env, __entry__=Entry(self.entry_env))
-        inv_at = lambda st2: PureEval(self, st2, ghost(st2), old_st=self.entry_st).truth(inv)
+        old_for_inv = getattr(fr, "entry_st", None) or self.entry_st
+        inv_at = lambda st2: PureEval(self, st2, ghost(st2), old_st=old_for_inv).truth(inv)
         self.vc(f"{label}.invariant_on_entry", st, inv_at(st))
         def body_runner(st_b, end):
             self.ev(s.test, st_b, lambda c, st_c: self.branch(
@@ -243,6 +272,7 @@ class Verifier(Executor):
             return k(st2.but(fr=fr))
         loop_fr = Frame(fr.on_return, fr.on_raise, fr.parent, fr.name)
         loop_fr.fn, loop_fr.qual = getattr(fr, "fn", None), getattr(fr, "qual", None)
+        loop_fr.entry_st = getattr(fr, "entry_st", None)
         loop_fr.loops = fr.loops + [(exit_, body_end)]
         st_i = st_i.but(fr=loop_fr)
         self.ev(s.test, st_i, lambda c, st_c: self.branch(
@@ -286,6 +316,7 @@ class Verifier(Executor):
         exits: List[Any] = []
         top = Frame(lambda v, s: exits.append(("return", v, s)), lambda e, s: exits.append((e, None, s)), None, fn.name)
         top.fn, top.qual = fn, c.qual
+        top.entry_st = None
         if fn.name == "__init__" and owner in ("NodeLabel", "EdgeLabel", "Node", "Edge"):
             # a frozen dataclass: verify the constructor call  Cls(<params>)  and name its value `result`
             pos = [x.arg for x in a.posonlyargs + a.args if x.arg != "self"]
@@ -297,7 +328,6 @@ class Verifier(Executor):
         # exits -> VCs
         for kind, v, s in exits:
             spec_env = dict(self.entry_env)          # parameters denote their entry values (immutable or refs)
-            spec_env.update({n: val for n, val in s.env.items() if n in self.entry_env and isinstance(val, SRef)})
             spec_env["__entry__"] = Entry(self.entry_env)
             pe_old = PureEval(self, self.entry_st, dict(self.entry_env, __entry__=Entry(self.entry_env)), old_st=self.entry_st)
             if kind == "return":
@@ -393,8 +423,9 @@ def _verify_one(args):
     r0 = prover.check_valid(axioms + v.entry_st.hyps(), z3.BoolVal(False), rlimit=400000, use_cvc5=False)
     if r0.status == "unsat":
         return ("error", f"{qual}: precondition is contradictory (vacuous contract)")
+    ordered = [e for e in exits if e[0] == "return"] + [e for e in exits if e[0] != "return"]
     if exits and all(prover.check_valid(axioms + s.hyps(), z3.BoolVal(False), rlimit=400000,
-                                        use_cvc5=False).status == "unsat" for _, _, s in exits[:3]):
+                                        use_cvc5=False).status == "unsat" for _, _, s in ordered[:4]):
         return ("error", f"{qual}: every explored exit has a contradictory path condition")
     return discharge(vcs, P, qual)
 
